@@ -108,11 +108,23 @@ def _install_ins():
                 return res
             SINK.count("M-INS:judged")
             if not any(order_ok(t, after) for t in ok_before):
+                # misplaced (another position would have been in order) or excluded (no position is: a sibling of the same
+                # choice group, or the one permitted occurrence, is already there) - two mechanisms, two keys
+                others = [c.tag for c in self if isinstance(c.tag, str) and c is not elm]
+                fits = any(order_ok(t, others[:i] + [elm.tag] + others[i:]) for t in ok_before for i in range(len(others) + 1))
+                pt = xsdkit.pfx_tag
+                if fits:
+                    key = "misplaced:%s>%s" % (pt(self.tag), pt(elm.tag))
+                else:
+                    rival = next((x for j, x in enumerate(others) if any(
+                        order_ok(t, o2[:i] + [elm.tag] + o2[i:]) for t in ok_before for o2 in [others[:j] + others[j + 1:]] for i in range(len(o2) + 1))), None)
+                    key = "excluded-by-sibling:%s>%s:%s" % (pt(self.tag), pt(elm.tag), pt(rival) if rival else "?")
                 SINK.violation(
                     "C10",
-                    "misplaced:%s>%s" % (xsdkit.pfx_tag(self.tag), xsdkit.pfx_tag(elm.tag)),
-                    "insert_element_before put <%s> into <%s> giving [%s] (successors %s)"
-                    % (xsdkit.pfx_tag(elm.tag), xsdkit.pfx_tag(self.tag), " ".join(xsdkit.pfx_tag(t) for t in after), list(tagnames)),
+                    key,
+                    "insert_element_before put <%s> into <%s> giving [%s] (successors %s)%s"
+                    % (pt(elm.tag), pt(self.tag), " ".join(pt(t) for t in after), list(tagnames),
+                       "" if fits else "; no position is in order while that sibling is present (same choice group / single occurrence)"),
                 )
         except Exception as e:  # the monitor must never break the code it watches
             SINK.count("M-INS:monitor-error:%s" % type(e).__name__)
